@@ -10,7 +10,7 @@ C17 driver.  Case line:
 * `prog`  : `s<hex>` send, `S<hex>` send with a foreign destination, `p` poll once; then drain.
 
 Answer: the trace of every `poll_next` result (`m<hex>` `P` `I` `end` `err`), the bytes the socket
-accepted and the number of successful flushes.
+accepted, the number of successful flushes and the number of sends refused by the full queue.
 -/
 import HickoryVerif.Drv.Proto
 import HickoryVerif.Model.TcpFraming
@@ -62,7 +62,8 @@ def handle (toks : List String) : Option String :=
     let prog ← parseList parseAct prog
     let c : Conn := { vec := vec, w := { ws := ws }, rs := rs }
     let (trace, c') := runProg c prog
-    pure (",".intercalate (trace.map showItem) ++ " w=" ++ toHex c'.w.written ++ " f=" ++ toString c'.w.flushes)
+    pure (",".intercalate (trace.map showItem) ++ " w=" ++ toHex c'.w.written ++ " f=" ++ toString c'.w.flushes
+      ++ " r=" ++ toString c'.w.rejected)
   | _ => none
 
 def step (s : State) (toks : List String) : State × String :=
